@@ -2901,7 +2901,7 @@ class PlateSlicer(Slicer):
 
             def helper_func(elem):
                 """ @private """
-                elem, to_array[0][0] = to_array[0][0].transfer(elem, quantity)
+                elem, to_array[0][0] = Container.transfer(elem, to_array[0][0], quantity)
                 instructions = to_array[0][0].instructions.splitlines()
                 instructions[-1] = instructions[-1].replace(elem.name, frm.plate.name + " " + elem.name, 1)
                 elem.instructions = "\n".join(instructions)
